@@ -28,12 +28,13 @@ type C09Case struct {
 	Window     string    `json:"window"`      // "" | unary | stream : a call parked between the failure check and its registration
 	Ser        bool      `json:"ser"`
 	ErrKind    string    `json:"err_kind,omitempty"` // which error value the failing transport returns (kit.FaultErrKinds)
+	Stats      bool      `json:"stats,omitempty"`    // the client connection has a (do-nothing) stats handler
 }
 
 type c09WindowKey struct{}
 
 func genC09(t *rapid.T) C09Case {
-	c := C09Case{Ser: rapid.Bool().Draw(t, "ser"), WriteFails: rapid.Bool().Draw(t, "write_fails"), ErrKind: rapid.SampledFrom(kit.FaultErrKinds).Draw(t, "err_kind")}
+	c := C09Case{Ser: rapid.Bool().Draw(t, "ser"), WriteFails: rapid.Bool().Draw(t, "write_fails"), ErrKind: rapid.SampledFrom(kit.FaultErrKinds).Draw(t, "err_kind"), Stats: rapid.IntRange(0, 2).Draw(t, "stats") == 0}
 	n := rapid.IntRange(1, 5).Draw(t, "ncalls")
 	for i := 0; i < n; i++ {
 		call := C09Call{Kind: rapid.SampledFrom(allKinds).Draw(t, "kind")}
@@ -115,7 +116,11 @@ func runC09(t *testing.T, c C09Case, pos int) *c09Run {
 			}
 		})
 		defer goat.VerifSetHook(nil)
-		cc := goat.NewClientConn(l.A, "c0", kit.ServerName)
+		var dopts []goat.DialOption
+		if c.Stats {
+			dopts = append(dopts, goat.WithStatsHandler(nopStats{}))
+		}
+		cc := goat.NewClientConn(l.A, "c0", kit.ServerName, dopts...)
 		bg := context.Background()
 
 		runStream := func(ctx context.Context, kind int, name string, o *c09CallObs, wantHeader bool) {
@@ -346,7 +351,7 @@ func execC09(t *testing.T, c C09Case) (v Verdict) {
 			failRun, failPos = base, L+1
 		}
 	}
-	labels := []string{fmt.Sprintf("write_fails=%v", c.WriteFails), "window=" + c.Window, fmt.Sprintf("calls=%d", len(c.Calls)), "read_error=" + c.ErrKind}
+	labels := []string{fmt.Sprintf("write_fails=%v", c.WriteFails), "window=" + c.Window, fmt.Sprintf("calls=%d", len(c.Calls)), "read_error=" + c.ErrKind, fmt.Sprintf("stats=%v", c.Stats)}
 	for _, call := range c.Calls {
 		labels = append(labels, "kind="+kit.KindNames[call.Kind])
 	}
@@ -371,10 +376,11 @@ type C09Storm struct {
 	WriteFails bool   `json:"write_fails"`
 	Ser        bool   `json:"ser"`
 	ErrKind    string `json:"err_kind,omitempty"`
+	Stats      bool   `json:"stats,omitempty"`
 }
 
 func genC09Storm(t *rapid.T) C09Storm {
-	return C09Storm{Callers: rapid.SampledFrom([]int{8, 16, 32, 64}).Draw(t, "callers"), Streams: rapid.Bool().Draw(t, "streams"), WriteFails: rapid.IntRange(0, 3).Draw(t, "wf") == 0, Ser: rapid.Bool().Draw(t, "ser"), ErrKind: rapid.SampledFrom(kit.FaultErrKinds).Draw(t, "err_kind")}
+	return C09Storm{Callers: rapid.SampledFrom([]int{8, 16, 32, 64}).Draw(t, "callers"), Streams: rapid.Bool().Draw(t, "streams"), WriteFails: rapid.IntRange(0, 3).Draw(t, "wf") == 0, Ser: rapid.Bool().Draw(t, "ser"), ErrKind: rapid.SampledFrom(kit.FaultErrKinds).Draw(t, "err_kind"), Stats: rapid.IntRange(0, 2).Draw(t, "stats") == 0}
 }
 
 func execC09Storm(t *testing.T, c C09Storm) (v Verdict) {
@@ -384,7 +390,11 @@ func execC09Storm(t *testing.T, c C09Storm) (v Verdict) {
 		tp := kit.NewTap()
 		l := kit.NewLink("c0", tp, c.Ser)
 		l.A.SetFaultErr(kit.FaultErr(c.ErrKind))
-		cc := goat.NewClientConn(l.A, "c0", kit.ServerName)
+		var dopts []goat.DialOption
+		if c.Stats {
+			dopts = append(dopts, goat.WithStatsHandler(nopStats{}))
+		}
+		cc := goat.NewClientConn(l.A, "c0", kit.ServerName, dopts...)
 		bg := context.Background()
 		start := make(chan struct{})
 		for i := 0; i < c.Callers; i++ {
